@@ -34,10 +34,12 @@ type Case struct {
 	Dials int          `json:"dials"`
 	// PreIDs: how often QUICSpec.TransportParameterIDs() is called before each dial (the documented pre-dial check)
 	PreIDs int `json:"pre_ids,omitempty"`
+	// Reuse: both dials use the same QUICSpec value (one spec value may serve many connections) instead of a fresh one
+	Reuse bool `json:"reuse,omitempty"`
 }
 
 func genCase(t *rapid.T) Case {
-	c := Case{Dials: 2, PreIDs: rapid.SampledFrom([]int{0, 0, 1, 2}).Draw(t, "pre-ids")}
+	c := Case{Dials: 2, PreIDs: rapid.SampledFrom([]int{0, 0, 1, 2}).Draw(t, "pre-ids"), Reuse: rapid.IntRange(0, 2).Draw(t, "reuse") == 0}
 	c.Spec = specgen.Desc{Base: rapid.SampledFrom(specgen.BaseNames()).Draw(t, "base")}
 	if rapid.IntRange(0, 3).Draw(t, "own-tps") != 0 {
 		c.Spec.TPs = specgen.GenTPs(t, 2, 10)
@@ -137,13 +139,22 @@ func extID(e tls.TLSExtension) (id int, known bool) {
 func checkCase(c Case, u *vf.Unit) *vf.Verdict {
 	u.Journal(c)
 	var perms []string
+	var spec *quic.QUICSpec
+	var pristine []idval
 	for dial := 0; dial < c.Dials; dial++ {
-		spec, err := c.Spec.Build() // a fresh spec per dial, as QUICID2Spec documents
-		if err != nil {
-			return vf.Bad("C11/harness/spec-build", "%v", err)
+		if spec == nil || !c.Reuse {
+			var err error
+			spec, err = c.Spec.Build() // a fresh spec per dial, as QUICID2Spec documents - or one value for all dials
+			if err != nil {
+				return vf.Bad("C11/harness/spec-build", "%v", err)
+			}
+			// what the spec says before anything has been done with it (own reading of the list and of the suppression set)
+			pristine = expectedTPs(spec, nil)
 		}
-		// what the spec says before anything has been done with it (own reading of the list and of the suppression set)
-		want := expectedTPs(spec, nil)
+		want := make([]idval, len(pristine))
+		for i, iv := range pristine {
+			want[i] = idval{iv.id, append([]byte(nil), iv.v...)}
+		}
 		var preReports [][]uint64
 		for i := 0; i < c.PreIDs; i++ {
 			preReports = append(preReports, spec.TransportParameterIDs())
@@ -183,6 +194,9 @@ func checkCase(c Case, u *vf.Unit) *vf.Verdict {
 			if want[i].id == 0x0f && len(want[i].v) == 0 {
 				want[i].v = scid // an empty initial_source_connection_id is filled in with the connection's own ID
 			}
+		}
+		if c.Reuse && dial > 0 {
+			u.Class("spec-value-reused")
 		}
 		if after := expectedTPs(spec, scid); fmt.Sprint(after) != fmt.Sprint(want) {
 			return vf.Bad("C11/tp/spec-rewritten", "dial %d: the spec's parameter list read after %d TransportParameterIDs() calls and a dial is %s, before it was %s", dial+1, c.PreIDs, fmt.Sprint(after), fmt.Sprint(want))
